@@ -289,6 +289,35 @@ def io_should_be_float(q, mb):
     return out
 
 
+def oracle_io_covered(ctx, case, res):
+    """the other direction of the I/O contract, per SIGNATURE: where the recipe resolves the INPUT (OUTPUT) pseudo-operator of a subgraph to
+    static-range quantization -- the very resolution calibration used -- every float32 graph input (output computed by an operator) of THAT
+    subgraph is an integer tensor of the activation width in the result"""
+    mi, mo = pl.read(case.mb), pl.read(res["out"])
+    for si, (gi, go) in enumerate(zip(mi.subgraphs, mo.subgraphs)):
+        scope_in = "".join(pl.tname(gi.tensors[t]) + ";" for t in gi.inputs)
+        for what, opname, scope, ids_i, ids_o in (("input", "INPUT", scope_in, gi.inputs, go.inputs), ("output", "OUTPUT", "", gi.outputs, go.outputs)):
+            try:
+                mode, cfg = orc.mode_of(res["q"], opname, scope)
+            except Exception:  # noqa: BLE001
+                continue
+            if mode != "srq":
+                continue
+            want = TT.INT16 if cfg.activation_tensor_config.num_bits == 16 else TT.INT8
+            produced = {o for op in gi.operators for o in op.outputs}
+            for a, b in zip(ids_i, ids_o):
+                t = gi.tensors[a]
+                if t.type != TT.FLOAT32 or mi.buffers[t.buffer].data is not None:
+                    continue
+                if what == "output" and a not in produced:
+                    continue
+                ctx.tag("io_covered_checked")
+                if go.tensors[b].type != want:
+                    ctx.fail(f"subgraph {si}: the recipe covers {opname} with {cfg.activation_tensor_config.num_bits}-bit static-range quantization, yet {what} "
+                             f"{pl.tname(t)} is {pl.TT_NAME.get(go.tensors[b].type)} in the result", case.replay(), f"io-{what}-not-quantized")
+                    return
+
+
 def oracle_c02(ctx, case, res):
     v = pl.skeleton_violations(case.mb, res["out"])
     if v:
